@@ -143,11 +143,16 @@ struct Answers {
 /// symbol indexes queried: all of 0..n+3, or (for very large tables) the first 1800 and everything
 /// from 65 000 on (around the 2^16 boundary and the end)
 fn index_list(n: usize) -> Vec<usize> {
-    if n <= 5000 {
-        (0..n + 3).collect()
-    } else {
-        (0..1800).chain(65_000..n + 3).collect()
+    let mut v: Vec<usize> = if n <= 5000 { (0..n + 3).collect() } else { (0..1800).chain(65_000..n + 3).collect() };
+    // far beyond the table, with low bits that fall inside it (an index narrowed to 16 / 32 bits would hit a record)
+    for base in [1usize << 16, 1 << 32, 1 << 48, 1 << 63, usize::MAX - 31] {
+        for i in 0..n.min(12) {
+            if base.wrapping_add(i) >= n + 3 {
+                v.push(base.wrapping_add(i));
+            }
+        }
     }
+    v
 }
 
 fn query<E: EndianParse>(t: &SymbolVersionTable<'_, E>, n: usize) -> Answers {
@@ -172,6 +177,25 @@ fn query<E: EndianParse>(t: &SymbolVersionTable<'_, E>, n: usize) -> Answers {
                     match nm {
                         Ok(s) => names.push(s.as_bytes().to_vec()),
                         Err(_) => bad = true,
+                    }
+                }
+                // the names again through nth(k) on a fresh iterator each: must walk the same links
+                if !bad {
+                    for k in 1..=names.len().min(6) {
+                        let via_nth = match t.get_definition(i) {
+                            Ok(Some(mut d2)) => d2.names.nth(k).map(|r| r.ok().map(|s| s.as_bytes().to_vec())),
+                            _ => Some(None),
+                        };
+                        let want = names.get(k).cloned();
+                        let same = match (&via_nth, &want) {
+                            (None, None) => true,
+                            (Some(Some(a)), Some(b)) => a == b,
+                            _ => false,
+                        };
+                        if !same {
+                            names.push(format!("<names.nth({k}) disagrees with the names in order>").into_bytes());
+                            break;
+                        }
                     }
                 }
                 Ok(Some(if bad { Err(()) } else { Ok(DefTruth { hash: d.hash, flags: d.flags, names, hidden: d.hidden }) }))
